@@ -30,6 +30,8 @@ KINDS = {
     "variant-path": ("Mode", "#[default(Mode::Fast)]", "Mode::Fast"),
     "none-Mode": ("Mode", None, "Mode::Slow"),
     "call-bound": ("u8", "#[default(sd(3), bound(..))]", "sd(3)"),
+    "int-lit-bound-empty": ("u8", "#[default(7, bound())]", "7u8"),
+    "str-into-bound-empty": ("M", '#[default("ab", bound())]', "M { v: 2, via: 2 }"),
     "method-call": ("u8", "#[default(sd(0).wrapping_add(3))]", "sd(0).wrapping_add(3)"),
 }
 CORE_KINDS = list(KINDS)
@@ -97,8 +99,15 @@ def build(name, shape, kinds, entry, variant_kind="named", type_value=None, nvar
                 vs.append("    %sV%d%s," % (mark, i, decl))
             else:
                 vs.append("    V%d%s," % (i, "(u8)" if i % 2 == 0 else ""))
+        if type_value:
+            # the type-level value wins over the marked variant: V0(u8) is built from a seed / taken from a const
+            tv_attr = {"call": "#[default(Self::V0(sd(3)))]\n", "path": "#[default(KT)]\n", "underscore": "#[default(_, bound(..))]\n"}[type_value]
         item = "%s%spub enum T {\n%s\n}\n" % (pre, tv_attr, "\n".join(vs))
-        if variant_kind == "unit":
+        if type_value == "path":
+            item += "pub const KT: T = T::V0(77);\n"
+        if type_value in ("call", "path"):
+            checks.append('    assert!(matches!(got, T::V0(m) if m == %s), "type-level-value-wins");' % ("sd(3)" if type_value == "call" else "77"))
+        elif variant_kind == "unit":
             checks.append('    assert!(matches!(got, T::V%d), "default-variant");' % defidx)
         else:
             if variant_kind == "named":
@@ -142,6 +151,10 @@ def run(tier):
         for vk in ("named", "tuple"):
             add("struct", ["call", "path-const-into"], "attr", vk, type_value=tv)
             add("struct", [], "attr", vk, type_value=tv)
+    for tv in ("call", "path", "underscore"):
+        add("enum", ["call", "none-M"], "attr", "named", type_value=tv, nvariants=3, defidx=1)
+        add("enum", [], "attr", "unit", type_value=tv, nvariants=3, defidx=1)
+        add("enum", ["path-const-into"], "derive", "tuple", type_value=tv, nvariants=2, defidx=1)
     # bound arguments in the list must not change the value
     for la in ("Default(bound())", "Default, bound()", "Default(bound(..))"):
         add("struct", ["call", "str-lit-into", "none-M"], "attr", "named", list_args=la)
